@@ -38,7 +38,7 @@ Lemma write_code fuel s f b k v :
   o = match r with ROk => BONormal | RErr e => BORaise (berr_of e) | _ => BORaise BAttr end.
 Proof.
   intros R Hh Lk Lv. destruct R as [Rf Rh Ru Rq Rk Rus Rb Rr]. specialize (Ru Hh).
-  unfold write_prog. cbn [bexec]. rewrite Rh, Hh. cbn [negb bind_inner beval_bytes]. rewrite Lk, Lv.
+  unfold write_prog. cbn [bexec]. rewrite Rh, Hh. cbn [negb bind_inner beval_val]. rewrite Lk. cbn [bind_inner beval_val]. rewrite Lv. cbn [bind_inner].
   set (st0 := set_local (set_local (inner s) "key" (VBytes k)) "value" (VBytes v)).
   assert (R0 : Rep st0 (uk b)) by (apply rep_locals, rep_locals; exact Ru).
   assert (Lk0 : lookup_env (locals st0) "key" = Some (VBytes k)).
@@ -209,7 +209,7 @@ Proof.
                                               match get f1 (uk b1) k with RVal v => BVal v | RErr x => BErr (berr_of x) | _ => BOther end)).
   { intros s1 f1 b1 R1 L1. cbn [bexec]. unfold read_prog. cbn [bexec]. rewrite (br_has _ _ _ R1).
     destruct (has_uk b1) eqn:Hh; cbn [negb].
-    - cbn [bind_inner beval_bytes]. rewrite L1.
+    - cbn [bind_inner beval_val]. rewrite L1. cbn [bind_inner].
       set (st0 := set_local (inner s1) "key" (VBytes k)).
       assert (R0 : Rep st0 (uk b1)) by (apply rep_locals, (br_uk _ _ _ R1 Hh)).
       assert (Lk0 : lookup_env (locals st0) "key" = Some (VBytes k)) by (unfold st0; cbn [set_local locals]; apply lookup_set_same).
@@ -235,4 +235,98 @@ Proof.
   - change (bexec fuel BSkip s) with (s, BONormal). pose proof (Read s f b R Lk) as Rd.
     destruct (bexec fuel (BCallRet read_prog) s) as [s3 o3].
     destruct (negb (has_uk b)); [exact Rd|]. destruct (get f (uk b) k); exact Rd.
+Qed.
+
+(* ================= begin_read / begin_write / end_read / end_write of UkvCollectionBackend ================= *)
+Transparent flush_prog.
+Opaque init_prog open_prog close_prog.
+
+Definition opened (b : backend) (h' : handle) : backend := mkb h' true (queue b) (bkeys b) (used b) (bufsize b) (ro b) (st b).
+
+(* begin_read() / begin_write(): the first session of a backend object constructs its UKVFile (mode r / a), later ones
+   reopen it; either way the handle is Model.UKV.open_ of the backend's handle (h0 before the first session) *)
+Lemma begin_code fuel (m : mode) prog s f b hh1 hh2 bb0 rest :
+  prog = BIf (BENot BEHasUkv)
+             (BUkvNew init_prog [("path", BENone); ("mode", BEStr (mode_str m)); ("h1", BENone); ("h2", BENone); ("b0", BENone)])
+             (BUkvCall open_prog [("mode", BEStr (mode_str m))]) ->
+  (List.length f < fuel)%nat -> BRep s f b ->
+  f = (mk_header hh1 hh2 bb0 ++ rest)%list -> List.length hh1 = 16%nat -> len hh2 < 65536 -> len bb0 < 4294967296 ->
+  (has_uk b = false -> uk b = h0) ->
+  (forall k, last (uk b) = Some k -> lookup (toc (uk b)) k <> None) ->
+  let '(s', o) := bexec fuel prog s in
+  let '(f', h') := open_ f (uk b) m in
+  o = BONormal /\ BRep s' f' (opened b h').
+Proof.
+  intros -> Hfuel R Hf L1 L2 L0 Hh0 Hin. pose proof R as R0. destruct R as [Rf Rh Ru Rq Rk Rus Rb Rr].
+  cbn [bexec beval_bool]. rewrite Rh. destruct (has_uk b) eqn:Hh; cbn [negb].
+  - (* the UKVFile exists: open(mode) *)
+    specialize (Ru eq_refl). cbn [bexec]. rewrite ?Rh. cbn [negb bind_inner beval_val].
+    set (st0 := set_local (inner s) "mode" (VStr (mode_str m))).
+    destruct Ru as [A1 A2 A3 A4 A5 A6].
+    assert (Lm : lookup_env (locals st0) "mode" = Some (VStr (mode_str m)) \/
+                 (lookup_env (locals st0) "mode" = Some VNone /\ lookup_env (attrs st0) "mode" = Some (VStr (mode_str m))))
+      by (left; unfold st0; cbn [set_local locals]; apply lookup_set_same).
+    assert (Hfuel0 : (List.length (file st0) < fuel)%nat) by (change (file st0) with (file (inner s)); rewrite Rf; exact Hfuel).
+    assert (Hf0 : file st0 = (mk_header hh1 hh2 bb0 ++ rest)%list) by (change (file st0) with (file (inner s)); rewrite Rf; exact Hf).
+    pose proof (open_code fuel st0 (uk b) m hh1 hh2 bb0 rest Hfuel0 Hf0 L1 L2 L0 A1 A2 A3 A4 A5 A6 Hin Lm) as O.
+    change (file st0) with (file (inner s)) in O. rewrite Rf in O.
+    destruct (exec fuel open_prog st0) as [st1 o1]. destruct (open_ f (uk b) m) as [f' h'].
+    destruct O as [O1 [O2 O3]].
+    split; [destruct O2 as [O2|O2]; subst o1; reflexivity|].
+    constructor; cbn [with_inner inner has_inner bq bks bused bbuf bro opened uk has_uk queue bkeys used bufsize ro]; try assumption; try reflexivity.
+    intros _. exact O3.
+  - (* first session: UKVFile(path, mode=...) *)
+    rewrite (Hh0 eq_refl). cbn [bexec bind_inner beval_val].
+    set (st0 := set_local (set_local (set_local (set_local (set_local (mkst (file (inner s)) (mks 0 false true) empty_env empty_env) "path" VNone) "mode" (VStr (mode_str m))) "h1" VNone) "h2" VNone) "b0" VNone).
+    assert (Hfuel0 : (List.length (file st0) < fuel)%nat) by (change (file st0) with (file (inner s)); rewrite Rf; exact Hfuel).
+    assert (Hf0 : file st0 = (mk_header hh1 hh2 bb0 ++ rest)%list) by (change (file st0) with (file (inner s)); rewrite Rf; exact Hf).
+    assert (Lm : lookup_env (locals st0) "mode" = Some (VStr (mode_str m))).
+    { unfold st0. cbn [set_local locals]. repeat (rewrite lookup_set_other by discriminate). apply lookup_set_same. }
+    assert (Lh1 : lookup_env (locals st0) "h1" = Some VNone).
+    { unfold st0. cbn [set_local locals]. repeat (rewrite lookup_set_other by discriminate). apply lookup_set_same. }
+    assert (Lh2 : lookup_env (locals st0) "h2" = Some VNone).
+    { unfold st0. cbn [set_local locals]. repeat (rewrite lookup_set_other by discriminate). apply lookup_set_same. }
+    assert (Lb0 : lookup_env (locals st0) "b0" = Some VNone) by (unfold st0; cbn [set_local locals]; apply lookup_set_same).
+    pose proof (init_code fuel st0 m hh1 hh2 bb0 rest VNone VNone VNone Hfuel0 Hf0 L1 L2 L0 Lm Lh1 Lh2 Lb0) as I.
+    change (file st0) with (file (inner s)) in I. rewrite Rf in I.
+    destruct (exec fuel init_prog st0) as [st1 o1]. destruct (open_ f h0 m) as [f' h'].
+    destruct I as [I1 [I2 I3]]. subst o1.
+    split; [reflexivity|].
+    constructor; cbn [inner has_inner bq bks bused bbuf bro opened uk has_uk queue bkeys used bufsize ro]; try assumption; try reflexivity.
+    intros _. exact I3.
+Qed.
+
+Theorem begin_read_code fuel s f b hh1 hh2 bb0 rest :
+  (List.length f < fuel)%nat -> BRep s f b ->
+  f = (mk_header hh1 hh2 bb0 ++ rest)%list -> List.length hh1 = 16%nat -> len hh2 < 65536 -> len bb0 < 4294967296 ->
+  (has_uk b = false -> uk b = h0) -> (forall k, last (uk b) = Some k -> lookup (toc (uk b)) k <> None) ->
+  let '(s', o) := bexec fuel begin_read_prog s in
+  let '(f', h') := open_ f (uk b) MR in
+  o = BONormal /\ BRep s' f' (opened b h').
+Proof. apply (begin_code fuel MR begin_read_prog). reflexivity. Qed.
+
+Theorem begin_write_code fuel s f b hh1 hh2 bb0 rest :
+  (List.length f < fuel)%nat -> BRep s f b ->
+  f = (mk_header hh1 hh2 bb0 ++ rest)%list -> List.length hh1 = 16%nat -> len hh2 < 65536 -> len bb0 < 4294967296 ->
+  (has_uk b = false -> uk b = h0) -> (forall k, last (uk b) = Some k -> lookup (toc (uk b)) k <> None) ->
+  let '(s', o) := bexec fuel begin_write_prog s in
+  let '(f', h') := open_ f (uk b) MA in
+  o = BONormal /\ BRep s' f' (opened b h').
+Proof. apply (begin_code fuel MA begin_write_prog). reflexivity. Qed.
+
+(* end_read() / end_write(): the UKVFile is closed *)
+Theorem end_code fuel prog s f b :
+  prog = BUkvCall close_prog [] -> BRep s f b -> has_uk b = true ->
+  (lookup_env (attrs (inner s)) "mode" = Some (VStr "r") \/ lookup_env (attrs (inner s)) "mode" = Some (VStr "a")) ->
+  let '(s', o) := bexec fuel prog s in
+  o = BONormal /\ BRep s' f (with_uk b (close_ (uk b))).
+Proof.
+  intros -> R Hh M. destruct R as [Rf Rh Ru Rq Rk Rus Rb Rr]. specialize (Ru Hh).
+  cbn [bexec]. rewrite Rh, Hh. cbn [negb bind_inner].
+  pose proof (close_code fuel (inner s) (uk b) Ru M) as C.
+  destruct (exec fuel close_prog (inner s)) as [st1 o1]. destruct C as [C1 [C2 [C3 C4]]]. subst o1.
+  split; [reflexivity|].
+  constructor; cbn [with_inner inner has_inner bq bks bused bbuf bro with_uk uk has_uk queue bkeys used bufsize ro]; try assumption.
+  - rewrite C1. exact Rf.
+  - intros _. exact C2.
 Qed.
